@@ -17,6 +17,22 @@ pub fn run(thorough: bool, seed: u64, _replay: Option<String>) -> Report {
     let mut drv = Driver::spawn();
     let mut rng = Rng::new(seed);
     let sup = supported();
+    // --- first thing in this (fresh) process: a name must canonicalise to itself also when other spellings of
+    // it – or of a label that folds to the same letters – were canonicalised before it (no spelling may leave
+    // something behind that changes the answer for another one)
+    for n in &sup {
+        let variants = [n.to_uppercase(), format!(" {} ", n), { let mut c = n.chars(); c.next().map(|f| f.to_uppercase().collect::<String>() + c.as_str()).unwrap_or_default() }, n.replace('-', "_")];
+        let before: Vec<Option<String>> = variants.iter().map(|v| iana_name(v).map(|x| x.to_string())).collect();
+        rep.evaluations += 1;
+        rep.oracle_checked += 1;
+        if iana_name(n) != Some(n) {
+            rep.fail("oracle", "C18:name-not-canonical-after-other-spellings", &format!("after canonicalising {:?} (-> {:?}), iana_name({}) = {:?}", variants, before, n, iana_name(n)), n.as_bytes(), None, "history");
+        }
+        let after: Vec<Option<String>> = variants.iter().map(|v| iana_name(v).map(|x| x.to_string())).collect();
+        if before != after {
+            rep.fail("oracle", "C18:canonicaliser-depends-on-history", &format!("{:?}: {:?} before and {:?} after canonicalising {}", variants, before, after, n), n.as_bytes(), None, "history");
+        }
+    }
     // reportable = the crate's own decode helper resolves a codec for the name (not: the codec crate's label table)
     let reportable: Vec<&str> = sup.iter().copied().filter(|n| decode(b"", n, DecoderTrap::Strict, false, false).is_ok()).collect();
     rep.notes.push(format!("reportable names: {} of {} supported (exhaustive)", reportable.len(), sup.len()));
